@@ -161,6 +161,8 @@ class Fn:
         if k == "call":
             return (n.get("callee") or ("(*" + S(n["fn"]) + ")")) + "(" + ", ".join(S(x) for x in n["a"]) + ")"
         if k == "cast":
+            if alias and n.get("ck") in ("BitCast", "NoOp"):
+                return S(n["a"][0])
             return "(" + self.ty(n).get("s", "?") + ")" + S(n["a"][0])
         if k == "decay":
             return S(n["a"][0])
@@ -424,8 +426,13 @@ class Program:
         self.enums = {}
         self.globals = {}
 
+    _unit_cache = {}
+
     def add(self, path):
-        u = Unit(path)
+        u = Program._unit_cache.get(path)
+        if u is None:
+            u = Unit(path)
+            Program._unit_cache[path] = u
         self.units.append(u)
         for f in u.functions:
             key = (f.file, f.line, f.name)
